@@ -8,6 +8,7 @@
 //!   get <k> / cancel <k>               k = ordinal of the query/queryraw op in the case
 //!   poll <us>                          Interface::poll at max(now, us)
 //!   ppoll <d>                          Interface::poll at max(now, poll_at + d) (now + 1 s if no deadline)
+//!   bpoll <us> / bppoll <d>            the same two while the device hands out no transmit token (tx_budget = 0)
 //!   servers <hex,hex|->               update_servers (any time, also while queries are pending)
 //!   hop <n|none>                       set_hop_limit(Some(n) / None); 0 panics by contract
 //!   rsp k=<k> pk=<j> pd=<d> src=<addr hex> sport=<n> data=<hex|->
@@ -249,7 +250,8 @@ enum Obs {
     Start(String),
     Get(usize, GetR),
     Cancel(usize, String),
-    Poll { t: i64, txs: Vec<Tx>, other: usize },
+    /// `blocked`: the device handed out no transmit token during this poll (bpoll / bppoll)
+    Poll { t: i64, txs: Vec<Tx>, other: usize, blocked: bool },
     Rsp { acc: bool, k: usize, pk: usize, pd: i64, src: Vec<u8>, sport: u16, data: Vec<u8> },
     PollAt(Option<i64>),
     Servers(Vec<Vec<u8>>),
@@ -435,9 +437,12 @@ fn exec_case(c: &Case) -> Vec<Obs> {
                 };
                 obs.push(Obs::Cancel(k, s.into()));
             }
-            "poll" | "ppoll" => {
+            "poll" | "ppoll" | "bpoll" | "bppoll" => {
                 let v: i64 = t[1].parse().unwrap();
-                let target = if t[0] == "poll" {
+                // bpoll / bppoll: the same poll while the device hands out no transmit token
+                let blocked = t[0].starts_with('b');
+                st.dev.tx_budget = if blocked { Some(0) } else { None };
+                let target = if t[0] == "poll" || t[0] == "bpoll" {
                     v
                 } else {
                     match st.iface.poll_at(Instant::from_micros(now), &st.sockets) {
@@ -449,6 +454,7 @@ fn exec_case(c: &Case) -> Vec<Obs> {
                 let r = catch(AssertUnwindSafe(|| {
                     st.iface.poll(Instant::from_micros(now), &mut st.dev, &mut st.sockets);
                 }));
+                st.dev.tx_budget = None;
                 if r.is_none() {
                     obs.push(Obs::Bad("PANIC".into()));
                     continue;
@@ -470,7 +476,7 @@ fn exec_case(c: &Case) -> Vec<Obs> {
                         _ => other += 1,
                     }
                 }
-                obs.push(Obs::Poll { t: now, txs, other });
+                obs.push(Obs::Poll { t: now, txs, other, blocked });
             }
             "servers" => {
                 let l: Vec<IpAddress> = parse_servers(t[1]).iter().map(|b| ipaddr(b)).collect();
@@ -978,8 +984,13 @@ fn gen_case(rng: &mut Rng, id: String, tier: &str) -> Case {
             }
         } else if r < 45 {
             // time
-            match rng.below(10) {
+            match rng.below(12) {
                 0..=3 => ops.push(format!("ppoll {}", *rng.pick(&[0i64, 0, 0, 0, -1, 1, -1000, 1000, 500_000]))),
+                10 => ops.push(format!("bppoll {}", *rng.pick(&[0i64, 0, 0, 1, 1000, 500_000]))),
+                11 => {
+                    t += *rng.pick(&[0i64, 0, 1, 1000, 999_999, 1_000_000, 3_000_000, 9_999_999, 10_000_000]);
+                    ops.push(format!("bpoll {}", t));
+                }
                 _ => {
                     t += *rng.pick(&[0i64, 1, 1000, 500_000, 999_999, 1_000_000, 1_000_001, 2_000_000, 3_000_000, 4_000_000, 7_000_000, 8_000_000, 9_999_999, 10_000_000, 10_000_001, 15_000_000, 30_000_000]);
                     ops.push(format!("poll {}", t));
@@ -1171,6 +1182,17 @@ fn gen_oracle_case(rng: &mut Rng, id: String) -> Case {
             Case { id, cfg: base_cfg(rng, &servers, format!("valid:{}", exp)), ops }
         }
         6..=7 => {
+            if rng.chance(1, 5) {
+                // the device never hands out a transmit token (or only after a while): every dispatch attempt fails
+                // below the socket; the query must still end - the 10 s per server run from the first ATTEMPT
+                let free_after = if rng.chance(1, 2) { 1000 } else { rng.range(1, 25) };
+                for i in 0..50i64 {
+                    let t = t0 + i * 1_000_000 + *rng.pick(&[0i64, 0, 1, 999]);
+                    ops.push(format!("{} {}", if i < free_after { "bpoll" } else { "poll" }, t));
+                }
+                ops.push("get 0".into());
+                return Case { id, cfg: base_cfg(rng, &servers, "timing-blocked".into()), ops };
+            }
             // no (matching) answers, polls exactly at poll_at: failure within the bound
             ops.push(format!("poll {}", t0));
             let noise = rng.chance(1, 2);
@@ -1298,8 +1320,9 @@ fn oracle_case(c: &Case, fails: &mut Vec<String>, stats: &mut BTreeMap<String, u
                 }
             }
             Obs::PollAt(Some(p)) => {
-                if let Some(Obs::Poll { t, txs, .. }) = prev {
-                    if *p <= *t {
+                if let Some(Obs::Poll { t, txs, blocked, .. }) = prev {
+                    // (a poll during which the device refused every frame legitimately leaves a query due at once)
+                    if *p <= *t && !*blocked {
                         // after a poll at t every pending query has both deadlines after t
                         // (C19_poll_no_spin): a deadline <= t means some query was not dispatched
                         let _ = txs;
@@ -1445,6 +1468,15 @@ fn oracle_case(c: &Case, fails: &mut Vec<String>, stats: &mut BTreeMap<String, u
                 }
                 i = j + 1;
             }
+        }
+    } else if ora == "timing-blocked" {
+        // 50 polls one second apart, the first ones (or all) with a device that refuses every frame, no response:
+        // each server is given up 10 s after the first dispatch ATTEMPT towards it, so with at most 3 servers
+        // (incl. the two mDNS groups) the query has failed after 49 s
+        match &final_get {
+            Some(GetR::Failed) => {}
+            Some(GetR::Pending) => fail("query-never-failing", "still pending after 50 polls one second apart (device refusing frames at first) without any response".into()),
+            other => fail("oracle-scenario-broken", format!("{:?}", other)),
         }
     } else if ora == "robust" {
         *stats.entry("robust_cases".into()).or_default() += 1;
